@@ -361,6 +361,20 @@ def mid_jobs(rng, q):
                                ("circ12-", lambda n: circulant(n, [1, 2])), ("K3,", lambda n: bipartite(3, n - 3))]:
             n = rng.randint(12, 20)
             out += spectral_jobs(und(n, edges_of(n)), "mid:%s%d" % (name, n), rng, p_plain=0.4)
+    # several disjoint copies of one small graph under a shuffled numbering (12..20 nodes): the largest
+    # eigenvalue is repeated and its eigenspace mixes the components - the degenerate case of every
+    # spectral measure (a single connected graph has a simple largest eigenvalue)
+    for rep in range(45 if q else 300):      # (a slip that needs a mixed-sign basis vector shows on ~8 % of them)
+        m, part = rng.choice([(5, cycle(5)), (3, complete(3)), (4, complete(4)), (4, cycle(4)), (6, cycle(6)),
+                              (4, [(0, 1), (0, 2), (0, 3)])])
+        k = rng.choice([3, 3, 4])
+        if m * k > 20:
+            k = 20 // m
+        n = m * k + rng.choice([0, 0, 1])
+        lab = list(range(n))
+        rng.shuffle(lab)
+        E = [(lab[c * m + a], lab[c * m + b]) for c in range(k) for a, b in part]
+        out += spectral_jobs(und(n, E), "mid:%dcopies-of-%dnodes" % (k, m), rng, p_plain=0.4)
     return out
 
 
